@@ -19,6 +19,8 @@ mod zobrist_history;
 mod metrics;
 mod search;
 mod table;
+#[cfg(inkayaku_verif)]
+pub mod verif;
 
 pub struct Engine<T: UciTx + Send + Sync + 'static> {
     uci_tx: Arc<T>,
@@ -87,6 +89,8 @@ impl<T: UciTx + Send + Sync + 'static> UciEngine for Engine<T> {
             }
             Quit => {
                 self.search_tx.send(UciQuit).unwrap();
+                #[cfg(inkayaku_verif)]
+                verif::before_join();
                 self.search_handle.take().unwrap().join().unwrap();
             }
         }
